@@ -2,7 +2,7 @@
    the correspondence C01/Corr.v runs against the real packers). *)
 From Coq Require Import List NArith Bool.
 Import ListNotations.
-From VF Require Import C01.Model C01.Proofs C01.KeyRef C01.KeyRefProofs.
+From VF Require Import C01.Model C01.Proofs C01.KeyRef C01.KeyRefProofs C01.Corr C01.Dataflow.
 Local Open Scope N_scope.
 
 (* FULL STATEMENT, part 1 (round trip).  For every configuration (packer, key type, enc, key reference style),
@@ -212,6 +212,45 @@ Proof.
   split; [vm_compute; reflexivity|]. exists 2. vm_compute. reflexivity.
 Qed.
 Print Assumptions roundtrip_asis_refuted.
+
+(* DATAFLOW of the key wrapping (the structural tie of C01/Corr.v).  For EVERY successful pack the calls the model
+   predicts — one Crypto.WrapKey call per recipient, in order: ECDH-ES with a fresh ephemeral key per recipient, empty
+   apu/apv arguments (apu of the result = the ephemeral key), no tag, no sender; ECDH-1PU with ONE ephemeral key, the
+   sender's key handle, apu = the sender key reference, apv = the hash of all recipient references, the tag of the
+   content encryption, the same content key — re-assembled by wrap_of_call are exactly the encrypted-key sub-terms of
+   the envelope.  The correspondence applies the same wrap_of_call / calls_match to the calls RECORDED from the real
+   packers' crypto service, so a recorded call that differs in any argument fails the vm_compute obligation. *)
+Theorem dataflow_tie : forall c spar payload sender rcpts rn w,
+  pack c spar payload sender rcpts rn = Ok w ->
+  calls_match rn w (calls_of c sender rcpts) = true.
+Proof. exact dataflow_tie_lemma. Qed.
+Print Assumptions dataflow_tie.
+
+(* non-vacuity: an envelope of each JWE packer matches its calls, and a call with ANY single argument changed (other
+   recipient, other sender, no tag, other apu / apv, other content key, ephemeral key not shared, other alg) does not *)
+Example dataflow_nonvacuous :
+  let rn := mkrnd 100 101 102 in
+  let c := mkcfg JweAuth P256 A256CBC512 DidKey in
+  let good := mkwcall PU_A256KW 6 (Some 1) 0 0 (NSkid (KDidKey 1)) (NKids [KDidKey 5; KDidKey 6]) (Some true) in
+  match pack c [1] 77 1 [5; 6] rn with
+  | Ok w =>
+      calls_match rn w (calls_of c 1 [5; 6]) = true /\
+      forallb (fun bad => negb (calls_match rn w [mkwcall PU_A256KW 5 (Some 1) 0 0 (NSkid (KDidKey 1)) (NKids [KDidKey 5; KDidKey 6]) (Some true); bad]))
+        [mkwcall PU_A256KW 7 (Some 1) 0 0 (NSkid (KDidKey 1)) (NKids [KDidKey 5; KDidKey 6]) (Some true);
+         mkwcall PU_A256KW 6 (Some 2) 0 0 (NSkid (KDidKey 1)) (NKids [KDidKey 5; KDidKey 6]) (Some true);
+         mkwcall PU_A256KW 6 None 0 0 (NSkid (KDidKey 1)) (NKids [KDidKey 5; KDidKey 6]) (Some true);
+         mkwcall PU_A256KW 6 (Some 1) 1 0 (NSkid (KDidKey 1)) (NKids [KDidKey 5; KDidKey 6]) (Some true);
+         mkwcall PU_A256KW 6 (Some 1) 0 1 (NSkid (KDidKey 1)) (NKids [KDidKey 5; KDidKey 6]) (Some true);
+         mkwcall PU_A256KW 6 (Some 1) 0 0 NEmpty (NKids [KDidKey 5; KDidKey 6]) (Some true);
+         mkwcall PU_A256KW 6 (Some 1) 0 0 (NSkid (KDidKey 1)) (NKids [KDidKey 6; KDidKey 5]) (Some true);
+         mkwcall PU_A256KW 6 (Some 1) 0 0 (NSkid (KDidKey 1)) (NKids [KDidKey 5; KDidKey 6]) None;
+         mkwcall PU_A256KW 6 (Some 1) 0 0 (NSkid (KDidKey 1)) (NKids [KDidKey 5; KDidKey 6]) (Some false);
+         mkwcall PU_A128KW 6 (Some 1) 0 0 (NSkid (KDidKey 1)) (NKids [KDidKey 5; KDidKey 6]) (Some true);
+         mkwcall ES_A256KW 6 None 0 0 NEpk NEmpty None] = true /\
+      calls_match rn w [good] = false
+  | _ => False
+  end.
+Proof. vm_compute. repeat split. Qed.
 
 (* non-vacuity: concrete envelopes of every packer, several recipients, a party holding two of the keys, the
    sender, an outsider *)
